@@ -234,7 +234,7 @@ def main(argv):
             errors.append("bounded check %s crashed:\n%s" % (bname, traceback.format_exc()))
             continue
         bounded.append(br)
-        for v in br.get("violations", []):
+        for v in br.get("violations", [])[:3]:
             d = os.path.join(ROOT, "replay", prop)
             os.makedirs(d, exist_ok=True)
             path = os.path.join(d, safe("bounded_" + br["name"] + "_" + v.get("id", "x")) + ".json")
